@@ -46,23 +46,26 @@ bool gen_scenario(Ctx &a, Scenario &sc, int type, int maxdim, int F) {
     return true;
 }
 
-struct Noise { double nf0 = 1e-4, tr0 = 0, slope = 0; int grid = 0; bool with_tr = false; };   // sigma(f) = s0 * (1 + slope * (f - fmin)/(fmax - fmin))
-double sig_at(const Scenario &sc, double s0, double slope, int f) { if (sc.F == 1) return s0; return s0 * (1 + slope * (sc.freq[f] - sc.freq[0]) / (sc.freq.back() - sc.freq[0])); }
+// sigma(f) = s0 * (1 + slope * x(f)), x = (f - fa) / (fb - fa) (or 1 - that when falling): a straight line in the
+// frequency, which every interpolating spline through points on it reproduces.  [fa, fb] is the calibration band
+// for the variants declared on the calibration grid and a wider span (0.8 fmin .. 1.25 fmax) for the variants
+// declared on the noise model's own grid, so that the calibration frequencies fall BETWEEN its knots.
+struct Noise {
+    double nf0 = 1e-4, tr0 = 0, slope = 0, fa = 0, fb = 0; int grid = 0, np = 2; bool with_tr = false, falling = false;
+    double x(double f) const { if (fb <= fa) return 0; double t = (f - fa) / (fb - fa); return falling ? 1 - t : t; }
+    double at(double s0, double f) const { return s0 * (1 + slope * x(f)); }
+};
 
 // declare the noise model to libvna using the chosen grid variant
 int set_m_error(Runner &run, const Scenario &sc, const Noise &n) {
-    auto lin = [&](double s0, double x) { return s0 * (1 + n.slope * x); };
     std::vector<double> fv, nf, tr;
-    int grid = n.grid;
-    if (sc.F == 1 && grid >= 2) grid = 1;
-    switch (grid) {
+    switch (n.grid) {
     case 0: nf = {n.nf0}; tr = {n.tr0}; return vnacal_new_set_m_error(run.vnp, nullptr, 1, nf.data(), n.with_tr ? tr.data() : nullptr);   // one value, NULL vector (only sound when slope == 0)
-    case 1: for (int f = 0; f < sc.F; f++) { nf.push_back(sig_at(sc, n.nf0, n.slope, f)); tr.push_back(sig_at(sc, n.tr0, n.slope, f)); }   // on the calibration grid, NULL frequency vector
+    case 1: for (int f = 0; f < sc.F; f++) { nf.push_back(n.at(n.nf0, sc.freq[f])); tr.push_back(n.at(n.tr0, sc.freq[f])); }   // on the calibration grid, NULL frequency vector
         return vnacal_new_set_m_error(run.vnp, nullptr, sc.F, nf.data(), n.with_tr ? tr.data() : nullptr);
-    default: {  // own grid of 2 (grid == 2) or 5 points covering the band exactly; linear sigma(f)
-        int np = grid == 2 ? 2 : 5;
-        for (int i = 0; i < np; i++) { double x = (double)i / (np - 1); fv.push_back(sc.freq[0] + x * (sc.freq.back() - sc.freq[0])); nf.push_back(lin(n.nf0, x)); tr.push_back(lin(n.tr0, x)); }
-        return vnacal_new_set_m_error(run.vnp, fv.data(), np, nf.data(), n.with_tr ? tr.data() : nullptr); }
+    default:    // own grid of np points spanning [fa, fb]
+        for (int i = 0; i < n.np; i++) { double f = n.fa + (n.fb - n.fa) * i / (n.np - 1); fv.push_back(f); nf.push_back(n.at(n.nf0, f)); tr.push_back(n.at(n.tr0, f)); }
+        return vnacal_new_set_m_error(run.vnp, fv.data(), n.np, nf.data(), n.with_tr ? tr.data() : nullptr);
     }
 }
 
@@ -78,7 +81,7 @@ void add_noise(Ctx &a, Scenario &sc, const Noise &n, int outlier_std) {
         for (int f = 0; f < sc.F; f++) {
             Mat M; sc.box[f].measure(st.Sfull[f], M);
             Mat N(sc.r, sc.c);
-            long double nf = sig_at(sc, n.nf0, n.slope, f), tr = n.with_tr ? sig_at(sc, n.tr0, n.slope, f) : 0;
+            long double nf = n.at(n.nf0, sc.freq[f]), tr = n.with_tr ? n.at(n.tr0, sc.freq[f]) : 0;
             for (int i = 0; i < sc.r; i++) for (int j = 0; j < sc.c; j++) {
                 long double sg = sqrtl(nf * nf + tr * tr * std::norm(M(i, j)));
                 N(i, j) = gauss(a, sg);
@@ -120,21 +123,24 @@ int solve(Ctx &c, Scenario &sc, const Noise *n, double alpha, std::vector<Mat> *
     return rc;
 }
 
-Noise gen_noise(Ctx &a, int F) {
+Noise gen_noise(Ctx &a, const Scenario &sc, int force_grid = -1) {
     Noise n;
     n.nf0 = std::pow(10.0, -6 + 4 * (double)a.unit());
     n.with_tr = a.boolean();
     n.tr0 = n.with_tr ? std::pow(10.0, -5 + 4 * (double)a.unit()) : 0;
-    n.grid = (int)a.draw(4);
-    n.slope = n.grid == 0 ? 0 : 4 * (double)a.unit();      // sigma grows up to 5x across the band
-    if (F == 1) n.slope = 0;
+    n.grid = force_grid >= 0 ? force_grid : (int)a.draw(4);
+    n.slope = n.grid == 0 ? 0 : 4 * (double)a.unit();      // sigma changes up to 5x across the span
+    n.falling = a.boolean();
+    n.np = n.grid == 2 ? 2 : 3 + (int)a.draw(3);
+    if (n.grid >= 2) { n.fa = 0.8 * sc.freq[0]; n.fb = 1.25 * sc.freq.back(); }
+    else { n.fa = sc.freq[0]; n.fb = sc.freq.back(); if (sc.F == 1) n.slope = 0; }
     return n;
 }
 
 } // namespace
 
 void pbt_property(Ctx &c) {
-    int mode = c.weighted({30, 2, 1});      // exact / noisy batch / outlier batch
+    int mode = c.weighted({30, 2, 1, 10});      // exact / noisy batch / outlier batch / noise-grid interpolation
     int fam = (int)c.draw(4);
     uint64_t seed = c.draw(1ull << 40);
     Ctx a; a.sh = &g_aux; a.rng = pbt::mix(seed, 0x18); a.size = 30;
@@ -143,12 +149,12 @@ void pbt_property(Ctx &c) {
     if (mode == 0) {    // ---- exact data, decided per case --------------------------------------
         Scenario sc; int type = FAMILY[fam][a.draw(2)]; int F = 1 + (int)a.draw(3);
         if (!gen_scenario(a, sc, type, 3, F)) { c.label("filtered:conditioning"); return; }
-        Noise n = gen_noise(a, F);
+        Noise n = gen_noise(a, sc);
         double alpha = a.boolean() ? 0.01 : 0.05;
         c.note("exact: %s  sigma_nf %.3g sigma_tr %.3g slope %.2f grid-variant %d alpha %g", sc.describe().c_str(), n.nf0, n.tr0, n.slope, n.grid, alpha);
         for (auto &st : sc.stds) c.note("  %s", st.describe().c_str());
         c.label("class:exact");
-        char gl[32]; snprintf(gl, sizeof gl, "grid-variant:%d", sc.F == 1 && n.grid >= 2 ? 1 : n.grid); c.label(gl);
+        char gl[32]; snprintf(gl, sizeof gl, "grid-variant:%d", n.grid); c.label(gl);
         std::vector<Mat> plain, weighted, disabled; std::string msg; int err;
         int rc0 = solve(c, sc, nullptr, alpha, &plain, msg, err);
         PBT_CHECK(c, rc0 == 0, "C18.unweighted_failed", "unweighted solve failed: %s", msg.c_str());
@@ -164,6 +170,32 @@ void pbt_property(Ctx &c) {
         if (n.with_tr || n.grid >= 2 || vm::is_colsys(sc.type)) c.nontrivial();
         return;
     }
+    if (mode == 3) {    // ---- "interpolated through the given points", decided per case -------------
+        // The same straight-line noise model is declared (A) on its own, wider grid of 2..5 knots and (B) value by
+        // value on the calibration grid.  The data carry noise of exactly that model, so the weights matter; the
+        // significance is 1e-9, so a correctly modelled data set is not rejected.  A and B must agree: same
+        // verdict, same corrected device (the weights differ by rounding only).
+        Scenario sc; int type = FAMILY[fam][a.draw(2)]; int F = 1 + (int)a.draw(3);
+        if (!gen_scenario(a, sc, type, 2, F)) { c.label("filtered:conditioning"); return; }
+        Noise n = gen_noise(a, sc, 2 + (int)a.draw(2));
+        if (a.chance(2, 3)) { n.with_tr = true; if (n.tr0 == 0) n.tr0 = std::pow(10.0, -5 + 4 * (double)a.unit()); }
+        n.slope = 0.5 + 3.5 * (double)a.unit();
+        add_noise(a, sc, n, -1);
+        Noise nb = n; nb.grid = 1;
+        c.note("interp: %s  sigma_nf %.3g sigma_tr %.3g slope %.2f %s, own grid of %d knots on %.6g..%.6g, calibration %.6g..%.6g", sc.describe().c_str(), n.nf0, n.with_tr ? n.tr0 : 0.0, n.slope, n.falling ? "falling" : "rising", n.np, n.fa, n.fb, sc.freq[0], sc.freq.back());
+        c.label("class:noise-grid-interpolation"); c.label(n.with_tr ? "interp:nf+tr" : "interp:nf-only"); { char gl[32]; snprintf(gl, sizeof gl, "interp:knots=%d", n.np); c.label(gl); }
+        std::vector<Mat> oa, ob; std::string ma, mb; int ea, eb;
+        int ra = solve(c, sc, &n, 1e-9, &oa, ma, ea);
+        int rb = solve(c, sc, &nb, 1e-9, &ob, mb, eb);
+        PBT_CHECK(c, rb == 0, "C18.correct_noise_rejected", "noise of exactly the declared size (declared on the calibration grid) rejected at significance 1e-9: %s", mb.c_str());
+        PBT_CHECK(c, ra == 0, "C18.noise_grid_not_interpolated", "the same noise model declared on its own grid (%d knots) is rejected (errno %d: %s) while the declaration on the calibration grid is accepted", n.np, ea, ma.c_str());
+        long double worst = 0;
+        for (size_t f = 0; f < oa.size(); f++) for (size_t k = 0; k < oa[f].a.size(); k++) worst = std::max(worst, std::abs(oa[f].a[k] - ob[f].a[k]));
+        c.track_max("interp: |own grid - calibration grid| / 1e-9", (double)(worst / 1e-9L));
+        PBT_CHECK(c, worst <= 1e-9L, "C18.noise_grid_not_interpolated", "the noise model declared on its own grid (%d knots) and on the calibration grid correct the device differently by %.3Lg", n.np, worst);
+        c.nontrivial();
+        return;
+    }
     // ---- aggregated classes ---------------------------------------------------------------------
     bool outlier = mode == 2;
     int N = outlier ? 100 : 400;
@@ -173,7 +205,7 @@ void pbt_property(Ctx &c) {
     for (int i = 0; i < N * 3 && done < N; i++) {
         Scenario sc; int type = FAMILY[fam][a.draw(2)]; int F = 1 + (int)a.draw(2);
         if (!gen_scenario(a, sc, type, 2, F)) continue;
-        Noise n = gen_noise(a, F);
+        Noise n = gen_noise(a, sc);
         int victim = -1;
         if (outlier) {
             // the displaced standard must be REDUNDANT (the rest still determines the terms, with every leakage
